@@ -3,10 +3,16 @@
 From Coq Require Extraction.
 From Coq Require Import ExtrOcamlBasic.
 From Coq Require Import List NArith ZArith.
-From BB Require Import Ebnf Chars Lexer G4Data.
+From BB Require Import Ebnf Chars Lexer G4Data Syntax Parser Graph.
 
 Definition bb_lex (w:list N) (K F:nat) : option (list token) := lex lex_g lex_rules w K F.
 Definition bb_recognise (toks:list nat) (K F:nat) : option bool :=
   recognise nat nat Nat.eqb pg toks K F (Ref start_rule).
 
-Extraction "bbmodel.ml" bb_lex bb_recognise.
+Definition bb_parse (w:list N) (K F:nat) : option (option script) :=
+  match bb_lex w K F with
+  | Some ts => Some (pscript (4 * List.length ts + 16) ts)
+  | None => None
+  end.
+
+Extraction "bbmodel.ml" bb_lex bb_recognise bb_parse edges nodes.
